@@ -63,6 +63,10 @@ def plan(tier, seed):
         i = rnd.choice(ids); other = rnd.choice(ids)
         inc = {0: [covering(i), i], 1: [i, covering(i)], 2: [covering(i), other, i], 3: [covering(i), covering(i)], 4: [covering(i), "unknown:python/x", i, covering(other)], 5: [i, other, covering(i), other]}[q % 6]
         cases.append((inc, None, i.split(":")[0] != "pixee" and rnd.random() < 0.5))
+    # a bare `*` somewhere in the list: what is listed before it runs first, in the order given; the star only appends what is not selected yet
+    for q in range(6 if tier == "quick" else 40):
+        i = rnd.choice(ids); other = rnd.choice(ids)
+        cases.append(({0: [i, "*"], 1: [covering(i), other, "*"], 2: ["*", i], 3: [other, "*", i]}[q % 4], None, q % 3 == 0))
     for _ in range(n):
         if rnd.random() < 0.5:
             inc = [rnd.choice((rnd.choice(ids), pat(), pat(), "unknown:python/" + rnd.choice(names))) for _ in range(rnd.randint(1, 4))]; exc = None
@@ -125,13 +129,13 @@ def judge(job, res):
             def origin_groups(seq): return [x for x in seq]
             # within a wildcard, registry order of the *worker*; literal order must be preserved: compare by relative order of items from different include entries
             pos = {c: i for i, c in enumerate(executed)}
-            ok = True; last = -1
+            # every codemod belongs to the FIRST entry of the list that selects it; the blocks of the entries run in the order of the entries (inside a wildcard's block the order is the registry's)
+            taken = set(); blocks = []
             for item in job["include"]:
-                block = [c for c in ref if (glob_match(item, c) if "*" in item else c == item)]
-                block = [c for c in block if c in pos and pos[c] > last]
-                if block:
-                    if min(pos[c] for c in block) <= last: ok = False
-                    last = max(pos[c] for c in block)
+                block = [c for c in ref if c not in taken and (glob_match(item, c) if "*" in item else c == item)]
+                taken.update(block)
+                if block: blocks.append(block)
+            ok = all(max(pos[c] for c in b1) < min(pos[c] for c in b2) for b1, b2 in zip(blocks, blocks[1:]))
             if not ok: v.append(Violation("C17", "include-order", "include order not respected", witness))
     return v, st, nt
 
